@@ -152,12 +152,88 @@ pub fn format_pair(data: &[u8]) -> Result<(), String> {
     r.unwrap_or(Ok(()))
 }
 
-pub const TARGETS: [(&str, &str, fn(&[u8]) -> Result<(), String>); 4] = [
+// ---------------------------------------------------------------- structured cases of any property
+thread_local! {
+    static REGISTRY: std::cell::RefCell<std::collections::HashMap<String, Vec<Box<dyn crate::engine::DynSub>>>> = std::cell::RefCell::new(std::collections::HashMap::new());
+}
+
+/// ids of the open findings of known_findings.json (the fuzz entry has no witness replay: an open finding is active)
+fn open_findings() -> &'static std::collections::HashSet<String> {
+    static OPEN: std::sync::OnceLock<std::collections::HashSet<String>> = std::sync::OnceLock::new();
+    OPEN.get_or_init(|| {
+        let mut set = std::collections::HashSet::new();
+        let path = format!("{}/known_findings.json", crate::engine::verif_root());
+        if let Ok(txt) = std::fs::read_to_string(path) {
+            if let Ok(v) = serde_json::from_str::<serde_json::Value>(&txt) {
+                let list = v.as_array().cloned().or_else(|| v["findings"].as_array().cloned()).unwrap_or_default();
+                for e in list {
+                    if e["status"].as_str() == Some("open") {
+                        if let Some(id) = e["id"].as_str() {
+                            set.insert(id.to_string());
+                        }
+                    }
+                }
+            }
+        }
+        set
+    })
+}
+
+/// The generic structured target: byte 0 selects one of the property's generated sub-checks, the remaining bytes
+/// are the random stream of that sub-check's proptest strategy (pass-through RNG). The case is judged by the
+/// sub-check's own oracle and known-finding gate; an unexplained failure is returned with the case.
+pub fn prop_case(prop: &str, data: &[u8]) -> Result<(), String> {
+    if data.len() < 2 {
+        return Ok(());
+    }
+    REGISTRY.with(|r| {
+        let mut r = r.borrow_mut();
+        let subs = r.entry(prop.to_string()).or_insert_with(|| match crate::props::get(prop) {
+            Some(m) => (m.subs)().into_iter().filter(|s| s.is_generated()).collect(),
+            None => vec![],
+        });
+        if subs.is_empty() {
+            return Ok(());
+        }
+        let i = (data[0] as usize * subs.len()) >> 8;
+        match subs[i].fuzz_one(&data[1..]) {
+            crate::engine::FuzzOutcome::Fail { message, debug, known, case } => {
+                if let Some(id) = known {
+                    if open_findings().contains(id) {
+                        return Ok(());
+                    }
+                }
+                Err(format!("{}: {} [case {} = {}]", subs[i].name(), message, debug, case))
+            }
+            _ => Ok(()),
+        }
+    })
+}
+
+macro_rules! prop_case_fns {
+    ($($f:ident $id:expr),*) => { $(pub fn $f(d: &[u8]) -> Result<(), String> { prop_case($id, d) })* };
+}
+prop_case_fns!(pc01 "C01", pc02 "C02", pc03 "C03", pc04 "C04", pc05 "C05", pc06 "C06", pc07 "C07", pc08 "C08", pc09 "C09", pc10 "C10",
+    pc11 "C11", pc12 "C12", pc13 "C13", pc14 "C14", pc15 "C15", pc16 "C16", pc17 "C17", pc18 "C18", pc19 "C19", pc20 "C20");
+
+pub const TARGETS: [(&str, &str, fn(&[u8]) -> Result<(), String>); 24] = [
     ("parse_any", "C13", parse_any),
     ("iso_roundtrip", "C10", iso_roundtrip),
     ("duration_text", "C11", duration_text),
     ("format_pair", "C19", format_pair),
+    ("prop_case_C01", "C01", pc01), ("prop_case_C02", "C02", pc02), ("prop_case_C03", "C03", pc03), ("prop_case_C04", "C04", pc04),
+    ("prop_case_C05", "C05", pc05), ("prop_case_C06", "C06", pc06), ("prop_case_C07", "C07", pc07), ("prop_case_C08", "C08", pc08),
+    ("prop_case_C09", "C09", pc09), ("prop_case_C10", "C10", pc10), ("prop_case_C11", "C11", pc11), ("prop_case_C12", "C12", pc12),
+    ("prop_case_C13", "C13", pc13), ("prop_case_C14", "C14", pc14), ("prop_case_C15", "C15", pc15), ("prop_case_C16", "C16", pc16),
+    ("prop_case_C17", "C17", pc17), ("prop_case_C18", "C18", pc18), ("prop_case_C19", "C19", pc19), ("prop_case_C20", "C20", pc20),
 ];
+
+/// entry of the `prop_case` fuzz binary: the property comes from the environment (HV_FUZZ_PROP)
+pub fn prop_case_env(data: &[u8]) -> Result<(), String> {
+    static PROP: std::sync::OnceLock<String> = std::sync::OnceLock::new();
+    let p = PROP.get_or_init(|| std::env::var("HV_FUZZ_PROP").unwrap_or_else(|_| "C01".to_string()));
+    prop_case(p, data)
+}
 
 #[allow(dead_code)]
 fn _unused(_: Dur) {}
